@@ -94,6 +94,20 @@ func c18Files(tail int) []Case {
 	out = append(out, Case{"webp VP8X+ICCP", d, i})
 	d, i = gen.WebPVP8X(0x20, 3999, 2999, testProfile(200001, "lcg"), inner[12:])
 	out = append(out, Case{"webp VP8X+ICCP 200001 bytes", d, i})
+	// extended files whose pixel data does not start with a VP8/VP8L chunk:
+	// lossy with a separate alpha plane, and an animation (frames in ANMF chunks)
+	alph := gen.RiffChunk("ALPH", testProfile(70000, "lcg"))
+	d, i = gen.WebPVP8X(0x10, 3999, 2999, nil, append(append([]byte{}, alph...), inner[12:]...))
+	out = append(out, Case{"webp VP8X alpha, no ICC: ALPH 70,000 bytes then VP8", d, i})
+	d, i = gen.WebPVP8X(0x30, 3999, 2999, prof, append(append([]byte{}, alph...), inner[12:]...))
+	out = append(out, Case{"webp VP8X alpha + ICCP: ALPH 70,000 bytes then VP8", d, i})
+	anim := gen.RiffChunk("ANIM", []byte{0, 0, 0, 0, 0, 0})
+	frame := append([]byte{0, 0, 0, 0, 0, 0, 0x9e, 0x0f, 0, 0xb6, 0x0b, 0, 40, 0, 0, 0}, gen.RiffChunk("VP8 ", testProfile(50000, "lcg"))...)
+	rest := append(append([]byte{}, anim...), gen.RiffChunk("ANMF", frame)...)
+	rest = append(rest, gen.RiffChunk("ANMF", frame)...)
+	rest = append(rest, inner[12:]...) // declared-large trailing chunk carrying the virtual tail
+	d, i = gen.WebPVP8X(0x02, 3999, 2999, nil, rest)
+	out = append(out, Case{"webp VP8X animation, no ICC: ANIM, two 50 KB ANMF frames", d, i})
 	return out
 }
 
